@@ -198,6 +198,16 @@ def derive_downstream(stub_info, up="a", rng=None):
 # one run
 
 
+def _safe_step(fs, path, **kw):
+  try:
+    return anacore.run_step(fs, path, **kw)
+  except Exception as ex:  # pylint: disable=broad-except
+    import traceback
+    return {"pyi": None, "errors": None, "pickle": None, "csv": None,
+            "stderr": None, "crash_msg": str(ex).split("\n")[0],
+            "crash": traceback.format_exc()[-2000:]}
+
+
 def generate(rng):
   chain = rng.random() < 0.35
   progs = {}
@@ -233,7 +243,7 @@ def evaluate(trace, detail=False):
   text_items, pk_items = [], []
   for name in order:
     # text stub, on the python path dir and as an imports-map target
-    r = anacore.run_step(fs, "/sim/src/%s.py" % name, module_name=name,
+    r = _safe_step(fs, "/sim/src/%s.py" % name, module_name=name,
                          output="/sim/pp/%s.pyi" % name,
                          imports_map_items=list(text_items) or None,
                          pythonpath="" if text_items else "/sim/pp",
@@ -244,12 +254,16 @@ def evaluate(trace, detail=False):
       return {"violation": None, "stats": stats, "digest": log.digest(),
               "nontrivial": False, "measure": None}
     text_items.append((name, "/sim/pp/%s.pyi" % name))
-    rp = anacore.run_step(fs, "/sim/src/%s.py" % name, module_name=name,
+    rp = _safe_step(fs, "/sim/src/%s.py" % name, module_name=name,
                           output="/sim/pk/%s.pickled" % name, pickle=True,
                           imports_map_items=list(pk_items) or None,
                           pythonpath="", report_errors=False,
                           extra=dict(opts, use_pickled_files=True))
     stats["steps"] += 1
+    if rp.get("crash_msg") is not None or rp.get("pickle") is None:
+      stats["crashed_a"] += 1
+      return {"violation": None, "stats": stats, "digest": log.digest(),
+              "nontrivial": False, "measure": None}
     pk_items.append((name, "/sim/pk/%s.pickled" % name))
   a_stub = fs.get_text("/sim/pp/a.pyi")
   log.add("a_stub", a_stub)
@@ -277,7 +291,7 @@ def evaluate(trace, detail=False):
       kw = dict(imports_map_items=list(pk_items), pythonpath="",
                 extra=dict(opts, use_pickled_files=True))
     kw.setdefault("extra", opts)
-    r = anacore.run_step(fs, "/sim/src/b.py", module_name="b",
+    r = _safe_step(fs, "/sim/src/b.py", module_name="b",
                          output="/sim/out/b_%s.pyi" % cfgname, api=True, **kw)
     stats["steps"] += 1
     stats["configs"] += 1
@@ -494,6 +508,14 @@ def merge_agg(dst, src):
   dst["measures"] |= src["measures"]
   dst["violations"].extend(src["violations"])
   dst["samples"].extend(src["samples"])
+
+
+def sanity(agg):
+  """A batch in which most upstream analyses fail internally decides nothing."""
+  if agg["runs"] >= 8 and agg["crashed_a"] * 2 > agg["runs"]:
+    raise kernel.HarnessError(
+        "%d of %d upstream analyses failed internally; the C06 oracle would "
+        "be vacuous" % (agg["crashed_a"], agg["runs"]))
 
 
 def coverage(agg, mode, tier):
